@@ -58,6 +58,7 @@ type frame struct {
 	callpos          token.Pos
 	cur              ssa.Instruction // instruction being executed (for schedule traces)
 	serial           int             // activation number (for schedule traces)
+	icount           int             // instructions executed in this activation
 }
 
 func (fr *frame) get(key ssa.Value) value {
@@ -181,6 +182,7 @@ const (
 func (in *Interp) visitInstr(fr *frame, instr ssa.Instruction) continuation {
 	in.steps++
 	fr.cur = instr
+	fr.icount++
 	if in.steps > in.cfg.MaxSteps {
 		in.abortPath(outcomeBound, fmt.Sprintf("step bound %d exceeded%s", in.cfg.MaxSteps, in.where(fr, instr.Pos())))
 	}
